@@ -160,6 +160,13 @@ def Classifies (off : Int → Int) (ℓ : Int) : Mapped Ltt → Prop
   | .single x => ∀ t, t + off t = ℓ ↔ t = ℓ - x.off
   | .ambiguous x y => ℓ - x.off < ℓ - y.off ∧ ∀ t, t + off t = ℓ ↔ (t = ℓ - x.off ∨ t = ℓ - y.off)
 
+/-- the same demand on the user-visible result, whose candidates are bare offsets
+(`MappedLocalTime<FixedOffset>`) -/
+def ClassifiesOff (off : Int → Int) (ℓ : Int) : Mapped Int → Prop
+  | .none => ∀ t, t + off t ≠ ℓ
+  | .single x => ∀ t, t + off t = ℓ ↔ t = ℓ - x
+  | .ambiguous x y => ℓ - x < ℓ - y ∧ ∀ t, t + off t = ℓ ↔ (t = ℓ - x ∨ t = ℓ - y)
+
 /-- the rule's step function within one year, in terms of the wall-clock start `S` (standard time)
 and end `E` (daylight time) of daylight time in that year -/
 def yearOff (a : Alt) (S E : Int) (t : Int) : Int :=
